@@ -209,6 +209,20 @@ def run_trading(rnd, S, cfgk, intensity=1.0, script=None, analyser=False, ids=No
                 r2 = api.order_shares(oid, q2, price_or_style=LimitOrder(round(price * 0.985, 2)))
                 return [r1, r2]
             out.append(f3)
+        # a purchase exactly as large as an odd-lot holding (the lot-rounding exemption is for selling out, not for buying)
+        if "STOCK" in context.portfolio.accounts:
+            for oid in stocks:
+                pos = context.portfolio.accounts["STOCK"].get_position(oid, POSITION_DIRECTION.LONG)
+                lot = 1 if oid.startswith("688") else 100
+                q = pos.quantity
+                if q > 0 and ((lot == 100 and q % 100 != 0) or (lot == 1 and q < 200)) and srnd.random() < 0.5:
+                    def f5(call, before, oid=oid, q=q, to=(srnd.random() < 0.3)):
+                        if to:
+                            call.update(api="order_to", args=(oid, 2 * q, None))
+                            return api.order_to(oid, 2 * q)
+                        call.update(api="order_shares", args=(oid, q, None))
+                        return api.order_shares(oid, q)
+                    out.append(f5)
         # the whole holding sold on the ex-dividend date (receivable still pending)
         today8 = B.d8(env.trading_dt.date())
         if "STOCK" in context.portfolio.accounts:
